@@ -14,6 +14,9 @@
       block for block (`Aligned`), the same type and origin row, for a table block exactly the rows the splitter
       cut out (`cellgrid_is_raw`, with C03 `segment_origin_row`: a contiguous slice of the input), for every other
       block the identical value (`non_table_blocks_equal`); hence `same_types`;
+    * `read_tables_commute`: the composition — at every position where the successful `pdtable` read delivers a
+      Table, the `jsondata` read delivers the JsonData of the same precursor, equal as a Python value to
+      `table_to_json_data` of that Table (`delivered_table_from_makePrecursor` + `jsondata_commutes_read`);
     * `jsondata_commutes`: the two serialisation paths agree — `make_table_json_data` on the precursor
       (numpy arrays through `to_json_serializable`) and `table_to_json_data` on the Table built from that
       precursor (`list(df[col])` through `to_json_serializable`) give equal JsonData (`PyEq`: Python dict
@@ -45,9 +48,10 @@ def succeeded (r : Result) : Bool :=
 
 /-! ## 0. the output forms are the keys of TABLE_HANDLERS; anything else is rejected unread -/
 
+/-- the *set* of output forms (keys of `TABLE_HANDLERS`, sorted by the translator: neither the order of the tuple nor
+    the names of the private handler functions are pinned) and the class raised for any other key -/
 theorem table_handlers_pinned :
-    Gen.tableHandlers = [("pdtable", "_make_table"), ("jsondata", "make_table_json_data"), ("cellgrid", "make_raw_cells")] ∧
-    Gen.tableHandlerKeys = ["pdtable".toList, "jsondata".toList, "cellgrid".toList] ∧
+    Gen.tableHandlerKeys = ["cellgrid".toList, "jsondata".toList, "pdtable".toList] ∧
     Gen.unknownFormRaises = "ValueError" := by decide
 
 /-- `_table_handlers[to]` for a text `to`: exactly the three literal keys -/
@@ -56,7 +60,7 @@ theorem formOf_pinned (s : Str) :
                else if s = "jsondata".toList then some Form.jsondata
                else if s = "cellgrid".toList then some Form.cellgrid else none := by
   unfold formOf
-  rw [table_handlers_pinned.2.1]
+  rw [table_handlers_pinned.1]
   by_cases h1 : s = "pdtable".toList
   · subst h1; decide
   · by_cases h2 : s = "jsondata".toList
@@ -658,6 +662,88 @@ theorem jsondata_commutes_read (ext : Ext) (cells : List Row) (f0 f : Fixer) (p 
       member "columns".toList jp = member "columns".toList jt ∧ C08.columnKeys jp = p.names :=
   have hs := makePrecursor_shape ext cells f0 f p h
   jsondata_commutes p dests hperm hs.2.2.1 hs.1 hs.2.1 hs.2.2.2
+
+/-- every Table the `pdtable` read delivers comes from a successful `make_table_json_precursor` of the rows of one of
+    the blocks (no hypothesis on how the read ends) -/
+theorem delivered_table_from_makePrecursor (cfg : Config) (bs : List (Block Row)) (f : Fixer) :
+    ∀ d ∈ (runBlocks (withForm cfg .pdtable) bs f).blocks, ∀ p, d.val = .table p →
+      ∃ b ∈ bs, ∃ g g', makePrecursor cfg.ext b.rows g = .ok (p, g') := by
+  induction bs generalizing f with
+  | nil => intro d hd; simp [runBlocks] at hd
+  | cons b bs ih =>
+    intro d hd p hp
+    unfold runBlocks at hd
+    simp only [accepts_withForm] at hd
+    by_cases hacc : accepts cfg b.ty b.rows = true
+    · simp only [hacc, Bool.not_true, Bool.false_eq_true, if_false] at hd
+      cases hh : handle (withForm cfg .pdtable) b.ty b.rows f.reset with
+      | error e =>
+        simp only [hh] at hd
+        by_cases hc : caught e = true
+        · simp only [hc, if_true] at hd
+          cases htr : (withForm cfg .pdtable).tracker with
+          | raising => simp [htr] at hd
+          | collecting =>
+            simp only [htr] at hd
+            obtain ⟨b', hb', r⟩ := ih f.reset d hd p hp
+            exact ⟨b', List.mem_cons_of_mem _ hb', r⟩
+        · simp only [hc, Bool.false_eq_true, if_false] at hd
+          simp at hd
+      | ok r =>
+        obtain ⟨v, f'⟩ := r
+        simp only [hh] at hd
+        rcases List.mem_cons.1 hd with rfl | hd'
+        · -- the block just handled
+          simp only at hp
+          subst hp
+          cases hb : b.ty with
+          | table =>
+            rw [hb] at hh
+            simp only [handle, withForm] at hh
+            cases hm : makeTable cfg.ext b.rows f.reset with
+            | error e => simp [hm, bind, Except.bind] at hh
+            | ok r2 =>
+              obtain ⟨q, g'⟩ := r2
+              simp [hm, bind, Except.bind, pure, Except.pure] at hh
+              obtain ⟨rfl, _⟩ := hh
+              exact ⟨b, by simp, f.reset, g', makeTable_ok cfg.ext b.rows f.reset g' q hm⟩
+          | metadata => rw [hb] at hh; cases hh
+          | directive =>
+            rw [hb] at hh
+            simp only [handle] at hh
+            cases hd2 : directive b.rows with
+            | error x => simp [hd2, bind, Except.bind] at hh
+            | ok nl => simp [hd2, bind, Except.bind, pure, Except.pure] at hh
+          | template => rw [hb] at hh; cases hh
+          | blank => rw [hb] at hh; cases hh
+        · obtain ⟨b', hb', r⟩ := ih f' d hd' p hp
+          exact ⟨b', List.mem_cons_of_mem _ hb', r⟩
+    · have hacc' : accepts cfg b.ty b.rows = false := by simpa using hacc
+      simp only [hacc', Bool.not_false, if_true] at hd
+      obtain ⟨b', hb', r⟩ := ih f.reset d hd p hp
+      exact ⟨b', List.mem_cons_of_mem _ hb', r⟩
+
+/-- **the composition**: whenever the `pdtable` read succeeds, at every position where it delivers a Table (built
+    from precursor `p`) the `jsondata` read delivers the JsonData of the same `p`, and that JsonData equals, as a
+    Python value, `table_to_json_data` of the Table (whatever order `dests` its destination set iterates in), with
+    the "columns" member identical in order.  (This is about `parse_blocks`; that `read_csv` / `read_excel` feed it
+    the rows of the text / of each worksheet is compared by the harness only.) -/
+theorem read_tables_commute (cfg : Config) (rows : List Row) (f : Fixer)
+    (hok : succeeded (parseBlocks (withForm cfg .pdtable) rows f) = true) (i : Nat) (d : Delivered) (p : Precursor)
+    (hi : (parseBlocks (withForm cfg .pdtable) rows f).blocks[i]? = some d) (hp : d.val = .table p) :
+    (parseBlocks (withForm cfg .jsondata) rows f).blocks[i]? = some { d with val := .json p } ∧
+    ∀ dests : List Str, dests.Perm p.destinations →
+      ∃ jp jt, ofPrecursor p = .ok jp ∧ ofTable (tableOf p dests) = .ok jt ∧ PyEq jp jt ∧
+        member "columns".toList jp = member "columns".toList jt ∧ C08.columnKeys jp = p.names := by
+  constructor
+  · rw [forms_aligned_json cfg rows f hok]
+    simp only [List.getElem?_map, hi, Option.map_some]
+    unfold asJson
+    rw [hp]
+  · intro dests hperm
+    have hmem : d ∈ (parseBlocks (withForm cfg .pdtable) rows f).blocks := List.mem_of_getElem? hi
+    obtain ⟨b, _, g, g', hmk⟩ := delivered_table_from_makePrecursor cfg (segment rows) f d hmem p hp
+    exact jsondata_commutes_read cfg.ext b.rows g g' p hmk dests hperm
 
 /-- what a `jsondata` block stands for: the JsonData of its precursor -/
 def jsonOf : BlockVal → Option (Except PyExc JVal)
